@@ -126,7 +126,7 @@ func (n *Node) Features() Features {
 
 // ---------------- generator ----------------
 
-var DefNames = []string{"a", "b", "c", "d", "Ab", "aB", "a-b", "a_b", "x", "long-Name_1", "Ünit", "ünit", "Ärger-x"}
+var DefNames = []string{"a", "b", "c", "d", "Ab", "aB", "a-b", "a_b", "x", "long-Name_1", "Ünit", "ünit", "Ärger-x", "a-b-c", "br", "link"}
 var DefPrefixes = []string{"", "", "", "", "ns", "n2"}
 
 // Text classes the suite never samples.
@@ -137,6 +137,7 @@ var DefTexts = []string{
 	"-9223372036854775808", "18446744073709551615", "18446744073709551616", ".5", "5.",
 	"NaN", "nan", "NAN", "Inf", "inf", "+Inf", "-Inf", "-inf", "+inf", "Infinity", "-infinity", "+INFINITY", "iNf",
 	"true", "TRUE", "True", "t", "T", "false", "F", "f", "tRuE", "yes", "truthy", "0", "no",
+	"\ufeffbom", "edge\ufeff", "mid\ufeffdle", `lit\u2028eral \u003c`, "010", "0x1F", "0b101", "0o17", "08", ".25e2", "1e-320", "5e-324",
 }
 
 type GenCfg struct {
